@@ -257,22 +257,54 @@ func runC03(c *Ctx) {
 		return
 	}
 	// ---- modifier level -------------------------------------------------------------------------
+	// corpus first: a field set to the text it already has, on a contact read from its stored form - numbers with trailing
+	// zeros, instants written with a zone offset, in an environment in UTC and in one that is not
+	type c03Case struct {
+		cj, key, val string
+		local        bool
+	}
+	var corpus []c03Case
+	for _, local := range []bool{false, true} {
+		for _, fv := range [][3]string{{"age", "37.50", `"number": 37.50`}, {"age", "18.0", `"number": 18.0`}, {"age", "40.5", `"number": 40.5`},
+			{"joined", "2018-05-01T10:30:00.000000-05:00", `"datetime": "2018-05-01T10:30:00.000000-05:00"`}, {"joined", "2021-07-01T23:30:00+02:00", `"datetime": "2021-07-01T23:30:00+02:00"`},
+			{"joined", "2022-01-01T00:00:00Z", `"datetime": "2022-01-01T00:00:00Z"`}, {"gender", "male", `"text": "male"`}} {
+			corpus = append(corpus, c03Case{fmt.Sprintf(`{"uuid": "5d76d86b-3bb9-4d5a-b822-c9d86f5d8e4f", "id": 1234, "name": "Cy", "status": "active", "created_on": "2023-01-02T03:04:05Z", "fields": {%q: {"text": %q, %s}}}`,
+				fv[0], fv[1], fv[2]), fv[0], fv[1], local})
+		}
+	}
 	n := c.N(6000, 300000)
-	for i := 0; i < n; i++ {
+	for i := 0; i < n+len(corpus); i++ {
 		env := envUTC
 		if i%3 == 2 {
 			env = envLocal
 		}
 		maxField := Pick(r, []int{4, 10, 640})
-		eng := engine.NewBuilder().WithMaxFieldChars(maxField).Build()
 		cj := genContactJSON(r, r.Chance(60))
+		if i < len(corpus) {
+			cj, maxField, env = []byte(corpus[i].cj), 640, envUTC
+			if corpus[i].local {
+				env = envLocal
+			}
+		}
+		eng := engine.NewBuilder().WithMaxFieldChars(maxField).Build()
 		contact, err := readContact(sa, cj, env, false)
 		if err != nil {
 			c.Count("C03-contact-rejected")
 			continue
 		}
+		if i < len(corpus) || i%4 == 1 {
+			// the contact as the engine itself stores it (numbers and instants in its own normal form), read back
+			if stored, err := json.Marshal(contact); err == nil {
+				if again, err := readContact(sa, stored, env, false); err == nil {
+					contact, cj = again, stored
+				}
+			}
+		}
 		it := &internTable{}
 		mc := genModifier(r, sa, env, contact, it, maxField)
+		if i < len(corpus) {
+			mc = modCase{"field", modifiers.NewField(sa.Fields().Get(corpus[i].key), corpus[i].val), "", fmt.Sprintf("field %s=%q (the text it has)", corpus[i].key, corpus[i].val)}
+		}
 		desc := map[string]any{"contact": json.RawMessage(cj), "modifier": mc.desc, "max_field_chars": maxField, "timezone": env.Timezone().String()}
 		mj, _ := json.Marshal(mc.mod)
 		desc["modifier_json"] = json.RawMessage(mj)
